@@ -64,15 +64,16 @@ def gen_pipe(rng, want_small=False):
     return {"capacity": cap, "buf": buf, "split": split}
 
 
-def gen_policy(rng, n_steps_hint):
-    if rng.random() < 0.25:
+def gen_policy(rng, n_steps_hint, nprocs=1, ops_hint=8, cores=1):
+    x = rng.random()
+    if x < 0.15:
         return {
             "name": "pct",
             "depth": rng.choice([1, 2, 3, 5]),
             "horizon": max(10, n_steps_hint),
             "timeout_bias": rng.choice([0.0, 0.0, 0.3, 0.8]),
         }
-    return {
+    pol = {
         "name": "weighted",
         "w_parent": logu(rng, 0.05, 10.0),
         "w_worker": [logu(rng, 0.02, 10.0) for _ in range(rng.choice([1, 2, 3, 4]))],
@@ -81,6 +82,24 @@ def gen_policy(rng, n_steps_hint):
         "w_fault": logu(rng, 0.1, 10.0),
         "sticky": rng.choice([0.0, 0.3, 0.6, 0.8, 0.9, 0.97]),
     }
+    if x < 0.30:
+        # time-varying speeds
+        pol["phase_len"] = rng.choice([3, 8, 20, 50])
+    elif x < 0.60:
+        # slow or stalled processes: a process is descheduled for a while when it reaches a given op
+        stalls = []
+        for _ in range(rng.choice([1, 1, 2])):
+            # one process per batch (ordinals up to the number of batches) or a fixed set of `cores` workers
+            hi = max(1, nprocs) if rng.random() < 0.5 else max(1, min(nprocs, cores))
+            label = "P" if rng.random() < 0.2 else "W%d" % rng.randrange(hi)
+            stalls.append({
+                "label": label,
+                "at": rng.randrange(0, max(2, ops_hint)),
+                "steps": int(logu(rng, 5, 600)),
+                "with_feeder": rng.random() < 0.5,
+            })
+        pol["stalls"] = stalls
+    return pol
 
 
 def gen_shape(rng, n):
@@ -172,7 +191,7 @@ def gen_config(prop, sub, run_id, n, shape):
         "cores": cores,
         "cpu_count": cpu,
         "pipe": gen_pipe(rng, want_small=(sub == "torn")),
-        "policy": gen_policy(rng, steps_hint),
+        "policy": gen_policy(rng, steps_hint, nprocs, (batch or 1) + 4, cores),
         "chaos_steps": rng.choice([steps_hint // 2, steps_hint, 2 * steps_hint, 5 * steps_hint, 20 * steps_hint]),
         "faults": [],
         "pickle_at_put": rng.random() < 0.2,
@@ -210,8 +229,8 @@ def blocked_at(r):
 def judge(prop, r, ref_out, names):
     """-> None | dict(clause, message, key)."""
     if prop == "C11":
-        if r.deaths:
-            return None
+        if r.fault_log:
+            return None  # C11 speaks about runs without worker failures (its campaigns inject none)
         v = wr.judge_c11(r, ref_out, names)
         if v is None:
             return None
